@@ -186,6 +186,40 @@ func c10Case(ctx *genCtx, ts *tape.Set, dir string) *genResult {
 		}
 	}
 	writeWorld(dir, files)
+	// with the flags, one case in two gives one source file of p an unusual shape on disk: a symbolic
+	// link to a file outside the package, a second hard link, or other permission bits. A rewrite goes
+	// through the name: the link stays a link, both names keep one content, the bits stay.
+	linkTarget, linkedFile := "", ""
+	if withFlags && outcome == "flags" {
+		ft := ts.Fork("fsshape")
+		var pfiles []string
+		for _, k := range sortedKeysStr(files) {
+			if strings.HasPrefix(k, "p/") && strings.HasSuffix(k, ".go") {
+				pfiles = append(pfiles, k)
+			}
+		}
+		if shape := ft.Intn(6); shape >= 3 && len(pfiles) > 0 {
+			f := pfiles[ft.Intn(len(pfiles))]
+			target := "_shared/" + filepath.Base(f)
+			switch shape {
+			case 3:
+				os.MkdirAll(filepath.Join(dir, "_shared"), 0o755)
+				if os.Rename(filepath.Join(dir, f), filepath.Join(dir, target)) == nil && os.Symlink("../"+target, filepath.Join(dir, f)) == nil {
+					linkTarget, linkedFile = target, f
+					res.probe("world.symlinked_source")
+				}
+			case 4:
+				os.MkdirAll(filepath.Join(dir, "_shared"), 0o755)
+				if os.Link(filepath.Join(dir, f), filepath.Join(dir, target)) == nil {
+					linkTarget, linkedFile = target, f
+					res.probe("world.hardlinked_source")
+				}
+			default:
+				os.Chmod(filepath.Join(dir, f), []os.FileMode{0o600, 0o664, 0o640, 0o755}[ft.Intn(4)])
+				res.probe("world.source_with_other_permissions")
+			}
+		}
+	}
 	plan := drawPlan(ts.Fork("plan"))
 	if outcome == "read-fault" {
 		var srcs []string
@@ -273,11 +307,32 @@ func c10Case(ctx *genCtx, ts *tape.Set, dir string) *genResult {
 	// with flags: user files
 	rewritten, changedIdents := 0, 0
 	d := diffSnap(before, after, func(p string) bool {
-		return isDerivedOfProcessed(p) || (strings.HasSuffix(p, ".go") && strings.HasPrefix(p, "p/"))
+		return isDerivedOfProcessed(p) || (strings.HasSuffix(p, ".go") && strings.HasPrefix(p, "p/")) || (linkTarget != "" && p == linkTarget)
 	})
 	if len(d) > 0 {
 		res.V = &genViolation{Clause: "foreign-file-touched", Detail: fmt.Sprintf("flags %v (exit %d): %s", flags, r.Exit, strings.Join(d, "; ")), Facts: facts}
 		return res
+	}
+	// the kind and permission bits of every user file are what they were
+	modeBefore := map[string]string{}
+	for _, e := range before {
+		modeBefore[e.Path] = e.Mode
+	}
+	for _, e := range after {
+		if m, ok := modeBefore[e.Path]; ok && m != e.Mode && strings.HasSuffix(e.Path, ".go") && filepath.Base(e.Path) != "derived.gen.go" {
+			facts["file"] = e.Path
+			res.V = &genViolation{Clause: "user-file-mode-changed", Detail: fmt.Sprintf("flags %v: %s was %s and is %s after the run", flags, e.Path, m, e.Mode), Facts: facts}
+			return res
+		}
+	}
+	if linkTarget != "" {
+		a, errA := os.ReadFile(filepath.Join(dir, linkedFile))
+		b, errB := os.ReadFile(filepath.Join(dir, linkTarget))
+		if errA != nil || errB != nil || !bytes.Equal(a, b) {
+			facts["file"] = linkedFile
+			res.V = &genViolation{Clause: "link-broken", Detail: fmt.Sprintf("flags %v: %s and %s were one file before the run and differ after it (%v %v)", flags, linkedFile, linkTarget, errA, errB), Facts: facts}
+			return res
+		}
 	}
 	for _, path := range sortedKeysBytes(orig) {
 		if !strings.HasPrefix(path, "p/") || filepath.Base(path) == "derived.gen.go" {
